@@ -1058,6 +1058,8 @@ def run(chk):
 
     from verif import fallthrough
     fallthrough.run(chk, "C09", floor=40)
+    from verif import argorder
+    argorder.run(chk, "C09", floor=100)
 
     chk.assumptions += [
         "the mnemonic grammar in rules/C09.py encodes the documented Eclipse naming of summary vectors",
